@@ -465,9 +465,17 @@ async def run_program(prog: dict[str, Any], out: dict[str, Any], pace_timeout: f
     missing = prog.get("missing") or [[None] * n for _ in prog["vectors"]]
     rounds = out["rounds"]
     # streams that begin earlier than others: extra, older samples on some inputs (the formula has to skip them)
+    from datetime import timezone as _tz
+
+    _zones = [_tz(timedelta(minutes=m)) for m in (0, 330, -210, 345)]
+
+    def _z(ts: Any, i: int) -> Any:
+        # the same instant, written in a different zone on every input (aware datetimes denote instants)
+        return ts.astimezone(_zones[i % 4]) if prog.get("tzmix") else ts
+
     for i, extra in enumerate(prog.get("prelude") or []):
         for j in range(extra, 0, -1):
-            await senders[i].send(Sample(T0 - timedelta(seconds=j), Quantity(9000.0 + 10 * i + j)))
+            await senders[i].send(Sample(_z(T0 - timedelta(seconds=j), i), Quantity(9000.0 + 10 * i + j)))
     if prog.get("prelude"):
         await asyncio.sleep(0.01)
     gap = prog.get("gap")  # [round, leaf]: that stream has no sample at all for that timestamp
@@ -476,7 +484,7 @@ async def run_program(prog: dict[str, Any], out: dict[str, Any], pace_timeout: f
         for i in range(n):
             if gap and gap[0] == k and gap[1] == i:
                 continue
-            await senders[i].send(Sample(ts, encode(vec[i], missing[k][i])))
+            await senders[i].send(Sample(_z(ts, i), encode(vec[i], missing[k][i])))
         got = []
         try:
             s = await asyncio.wait_for(rx.receive(), timeout=pace_timeout)
